@@ -397,4 +397,63 @@ theorem prefix_snoc {r a : P} {x : Seg} (h : r <+: a ++ [x]) : r <+: a ∨ r = a
     rw [List.concat_eq_append, ← List.append_assoc] at ht
     exact ⟨t', (List.append_inj' ht rfl).1⟩
 
+theorem kind?_filter_none (fs : FS) (f : P × Kind → Bool) (p : P) (h : ∀ k, f (p, k) = false) :
+    kind? (fs.filter f) p = none := by
+  induction fs with
+  | nil => rfl
+  | cons e es ih =>
+    obtain ⟨q, k⟩ := e
+    by_cases hq : q = p
+    · subst hq; simp only [List.filter, h k]; exact ih
+    · cases hf : f (q, k) with
+      | false => simp only [List.filter, hf]; exact ih
+      | true => simp only [List.filter, hf, kind?, hq, ↓reduceIte]; exact ih
+
+theorem kind?_filter_of_none (fs : FS) (f : P × Kind → Bool) (p : P) (h : kind? fs p = none) :
+    kind? (fs.filter f) p = none := by
+  induction fs with
+  | nil => rfl
+  | cons e es ih =>
+    obtain ⟨q, k⟩ := e
+    simp only [kind?] at h
+    split at h
+    · cases h
+    · rename_i hq
+      cases hf : f (q, k) with
+      | false => simp only [List.filter, hf]; exact ih h
+      | true => simp only [List.filter, hf, kind?, hq, ↓reduceIte]; exact ih h
+
+/-- after a successful `_clearPath` nothing is left AT the path -/
+theorem clearPath_removes_path (c : Cfg) (fs fs' : FS) (p : P) (h : clearPath c fs (some p) = .ok fs') :
+    kind? fs' p = none := by
+  simp only [clearPath] at h
+  split at h
+  · split at h
+    · split at h
+      · cases h
+      · rename_i fs1 h1
+        have k1 : kind? fs1 p = none := by
+          unfold remove at h1; split at h1
+          all_goals first
+            | (cases h1; exact kind?_filter_none _ _ _ (fun k => by simp))
+            | contradiction
+            | cases h1
+        split at h
+        · unfold rmtree at h; split at h
+          · cases h; exact kind?_filter_of_none _ _ _ k1
+          · cases h
+        · cases h; exact k1
+    · split at h
+      · unfold remove at h; split at h
+        · cases h; exact kind?_filter_none _ _ _ (fun k => by simp)
+        · cases h
+      · unfold rmtree at h; split at h
+        · cases h; exact kind?_filter_none _ _ _ (fun k => by simp)
+        · cases h
+  · rename_i hne
+    cases h
+    cases hk : kind? fs p with
+    | none => rfl
+    | some k => simp [fexists, hk] at hne
+
 end Hio.Path
